@@ -167,6 +167,9 @@ func (g *FuncGen) declFun(name string, args []string, res string) {
 		return
 	}
 	g.declSeen[name] = true
+	if _, inPrelude := preludeSigs[name]; inPrelude {
+		return
+	}
 	g.emit(fmt.Sprintf("(declare-fun %s (%s) %s)", name, strings.Join(args, " "), res))
 }
 
